@@ -754,10 +754,20 @@ example : strMarker "all done" = true ∧ strMarker "DON E" = false ∧ strMarke
 
 /-- a provider that always asks for one tool (an `Insatiable` adversary exists) -/
 private def provForever : ToolAdv Nat Nat Nat Nat :=
-  ⟨fun i _ => (i + 1, .ok (i, [i])), fun i _ => (i, .ok 1000), fun i c => (i, .ok c)⟩
+  ⟨fun i _ => (i + 1, .ok (i, [i])), fun _ calls => !calls.isEmpty, fun i _ => (i, .ok 1000), fun i c => (i, .ok c)⟩
 
 example : Insatiable provForever :=
-  ⟨fun s _ => ⟨s + 1, s, [s], rfl, by simp⟩, fun s c => ⟨s, c, rfl⟩, fun s _ => ⟨s, 1000, rfl⟩⟩
+  ⟨fun s _ => ⟨s + 1, s, [s], rfl, rfl⟩, fun s c => ⟨s, c, rfl⟩, fun s _ => ⟨s, 1000, rfl⟩⟩
+
+/-- a provider whose `tool_calls` object is truthy but yields nothing (a generator object): also `Insatiable`, so
+    exactly `max_iterations` rounds without a single execution, then one completion -/
+private def provEmptyGenerator : ToolAdv Nat Nat Nat Nat :=
+  ⟨fun i _ => (i + 1, .ok (i, [])), fun _ _ => true, fun i _ => (i, .ok 1000), fun i c => (i, .ok c)⟩
+
+example : toolRounds (transcribeWithTools ⟨3, true, true, true⟩ provEmptyGenerator 0).evs = 3 ∧
+    completions (transcribeWithTools ⟨3, true, true, true⟩ provEmptyGenerator 0).evs = 1 ∧
+    (transcribeWithTools ⟨3, true, true, true⟩ provEmptyGenerator 0).evs.length = 4 := by
+  decide
 
 /-- against it, max_iterations = 3 gives exactly 3 rounds and one final completion, whose response is returned -/
 example : toolRounds (transcribeWithTools ⟨3, true, true, true⟩ provForever 0).evs = 3 ∧
